@@ -92,6 +92,10 @@ def replay_line(row, ctx, opts):
                 return out
         else:
             nodes = [bytes([typ]) + bytes((7 * i + 3) % 256 for i in range(ln - 1))]
+            if typ == 255 and ln == 32:
+                from eth_hash.auto import keccak
+
+                nodes.append(keccak(b""))        # the blank hash is not a node: unknown type byte 0xc5
         for node in nodes:
             got = call(nd.parse_node, node)
             want = row["parse"]
